@@ -26,6 +26,7 @@ EXPLANATION = (
     "refused. C06.5 sibling agreement: the reservation estimate runs the same pipeline as a fill (round the fill, fees on "
     "the rounded fill, round the fees) and reserves only what would be debited. The arithmetic 'accepted with exactly that "
     "much, rejected with one unit less' is not claimed."
+    " C06.5 also: order classes that carry a limit price reserve at the limit price (with C04.1 an upper bound of what a fill can cost)."
 )
 TRUSTED = ["CPython ast parser", "mypy callee resolution / class hierarchy", "sa.cfg statement CFG"]
 
